@@ -3,7 +3,8 @@
    repeated in coq/pins/C11.v and re-checked on every run. *)
 From Coq Require Import List Bool Arith ZArith QArith.
 From GV Require Import Base.Outcome Base.AMap Model.GState Model.Creation Model.Query
-     Model.Components Model.Cluster Model.Square Spec.ClusterDef Proofs.ClusterDefOk Proofs.ClusterOk.
+     Model.Components Model.Cluster Model.Square Spec.ClusterDef Spec.ClusterSpec
+     Proofs.ClusterDefOk Proofs.ClusterOk Proofs.ClusterEqOk.
 Import ListNotations.
 Close Scope Q_scope.
 
@@ -99,4 +100,24 @@ Section C11.
   Theorem C11_subset_defined : forall (g : gstate) S mS v,
     S <> [] -> triangles teqb g (Some S) = Ok mS -> In v S -> exists a, lookup teqb v mS = Some a.
   Proof. exact (triangles_defined teqb teqb_spec). Qed.
+  (* ---- model = definition (undirected, unweighted) ----
+     for every graph state passing the executable coherence test nbr_ok_b (node list
+     duplicate-free; neighbour query total, inside the node list, symmetric - evaluated by the
+     Run module on every case) and every requested node of the graph, with node_names = None
+     or any list: triangles(v) is the number of triangles through v in the adjacency [nadj]
+     the function reads, and clustering(v) is (as a rational) 2 tri / (d (d-1)), 0 when d < 2 *)
+  Theorem C11_triangles_eq_def : forall (g : gstate) nn m v,
+    nbr_ok_b teqb g = true ->
+    triangles teqb g nn = Ok m ->
+    In v (requested_names g nn) -> In v (get_all_node_names g) ->
+    lookup teqb v m = Some (tri teqb (get_all_node_names g) (nadj teqb g) v).
+  Proof. intros g nn m v Hok. exact (triangles_eq_def teqb teqb_spec g Hok nn m v). Qed.
+
+  Theorem C11_clustering_eq_def : forall (g : gstate) nn m v,
+    nbr_ok_b teqb g = true ->
+    directed (sp g) = false ->
+    clustering teqb g nn = Ok m ->
+    In v (requested_names g nn) -> In v (get_all_node_names g) ->
+    exists c, lookup teqb v m = Some c /\ (c == cc teqb (get_all_node_names g) (nadj teqb g) v)%Q.
+  Proof. intros g nn m v Hok. exact (clustering_eq_def teqb teqb_spec g Hok nn m v). Qed.
 End C11.
